@@ -427,12 +427,12 @@ Definition conds_dom (cs : list cond) : bool :=
 
 Definition in_domain (ch : list cel) (f : fin) : bool :=
   match f with
-  | FSave _ | FCreateOC _ _ => true
+  | FSave _ | FCreateOC _ _ | FSaveOmit _ _ => true
   | FInit ic | FFoc ic =>
       kv_alone (ch_attrs ch) && kv_alone (ch_assigns ch) && negb (unscoped ic)
       && conds_typed (ch_conds ch ++ ic) && args_typed (ch_attrs ch) && args_typed (ch_assigns ch)
       && conds_dom (ch_conds ch ++ ic) && args_data (ch_attrs ch) && args_data (ch_assigns ch)
-  | FSaveSlice _ | FSaveOmit _ _ | FCreateU _ _ _ | FCreateOCSlice _ _ _ | FCreateMaps _ _
+  | FSaveSlice _ | FCreateU _ _ _ | FCreateOCSlice _ _ _ | FCreateMaps _ _
   | FCSave _ | FCSaveSlice _ | FCCreateOC _ _ | FCFoc _ _ _ _ => false   (* not covered by model_meets_spec; own domains below *)
   end.
 Fixpoint distinct_cols (l : list col) : bool :=
